@@ -131,7 +131,7 @@ def _method(cls, name):
 def rule_d2(repo):
     res = RuleResult('C11.D2', 'what an item class writes to a file / to the editor is what it reads back', floor=27)
     tbl = item_table(repo)
-    need(len(tbl) >= 9, 'item_table has fewer than 9 kinds')
+    need(len(tbl) >= 5, 'item_table has fewer than 5 kinds')
     for ty, cls in sorted(tbl.items()):
         exp = need(_method(cls, 'export_json'), '%s has no export_json' % cls.name)
         par = need(_method(cls, 'parse'), '%s has no parse' % cls.name)
